@@ -8,7 +8,8 @@
    [react_spec] is the property text as a loop; [agent_run] is the superstep-level model of the
    graph NewAgent builds.  [step_exact checker md s] = in mode [md] the consumer of the model's
    output receives the scripted reply and the checker reports "tool calls" iff it has some. *)
-From Eino Require Import Base.Util Model.Tools Model.React Proofs.React Proofs.ReactExt.
+From Eino Require Import Base.Util Model.Tools Model.Graph Model.React Model.ReactGraph Proofs.React Proofs.ReactExt Proofs.ReactGraph.
+Local Open Scope nat_scope.
 Local Open Scope string_scope.
 
 (* the graph-level loop IS the specification, for every script, tools node, return-directly
@@ -20,6 +21,36 @@ Theorem react_refines_spec :
     = react_spec tn rd rd_nonempty modifier visible script max_steps input.
 Proof. exact agent_refines_spec. Qed.
 Print Assumptions react_refines_spec.
+
+(* ... and [agent_run] is not an ad-hoc reading of the graph: compose's run loop as modelled by the
+   shared engine model (Model/Graph.v: Pregel channels, calculateNextTasks, branch evaluation,
+   the step counter and ErrExceedMaxSteps, default limit = number of nodes + 10) executed on the
+   graph NewAgent builds (Model/ReactGraph.v: START -> chat, the stream branch chat -> {tools,
+   END}, tools -> chat or the branch tools -> {chat, direct_return}, direct_return -> END, node
+   bodies with their state pre-handlers) yields exactly [agent_run] with the effective step
+   limit — for every script, tools node, return-directly set, modifier, checker, mode, MaxStep *)
+Theorem react_graph_run_is_agent_run :
+  forall tn rd rd_nonempty modifier visible checker md max_step script input,
+    engine_trace tn rd rd_nonempty modifier visible checker md max_step script input
+    = Some (agent_run tn rd rd_nonempty modifier visible checker md
+                      (effective_max_steps max_step rd_nonempty) script input).
+Proof. exact engine_refines_agent. Qed.
+Print Assumptions react_graph_run_is_agent_run.
+
+(* hence the engine's run of the ReAct graph is the specification (DESIGN: react_graph_refines_spec) *)
+Theorem react_graph_refines_spec :
+  forall tn rd rd_nonempty modifier visible checker md max_step script input,
+    Forall (step_exact checker md) script ->
+    engine_trace tn rd rd_nonempty modifier visible checker md max_step script input
+    = Some (react_spec tn rd rd_nonempty modifier visible script
+                       (effective_max_steps max_step rd_nonempty) input).
+Proof.
+  exact (fun tn rd rdn modifier visible checker md max_step script input H =>
+           eq_trans (engine_refines_agent tn rd rdn modifier visible checker md max_step script input)
+                    (f_equal Some (agent_refines_spec tn rd rdn modifier visible checker md script
+                                                      (effective_max_steps max_step rdn) input H))).
+Qed.
+Print Assumptions react_graph_refines_spec.
 
 (* Generate needs no hypothesis beyond the checker being exact on a whole message ... *)
 Theorem react_generate_refines_spec :
@@ -238,4 +269,13 @@ Example future_nonvacuous :
   List.length (t_emits t) = 6%nat
   /\ nth_error (t_inputs t) 1 = Some (ex_input ++ firstn 3 (t_emits t))%list
   /\ nth_error (t_rounds t) 1 = Some [mkCall "b0" "search" "z"; mkCall "b1" "final" "w"].
+Proof. vm_compute. repeat split; reflexivity. Qed.
+(* the engine's supersteps on the example: one node per superstep, chat/tools alternating, then direct_return *)
+Example engine_supersteps_nonvacuous :
+  engine_supersteps ex_tn ex_rd true (fun h => h) (fun _ => true) default_checker Stream 0 ex_script ex_input
+  = [[]; [kChat]; [kTools]; [kChat]; [kTools]; [kDirect]]
+  /\ engine_trace ex_tn ex_rd true (fun h => h) (fun _ => true) default_checker Stream 4 ex_script ex_input
+     = Some (agent_run ex_tn ex_rd true (fun h => h) (fun _ => true) default_checker Stream 4 ex_script ex_input)
+  /\ option_map t_out (engine_trace ex_tn ex_rd true (fun h => h) (fun _ => true) default_checker Stream 4 ex_script ex_input)
+     = Some (Failed EStepLimit).
 Proof. vm_compute. repeat split; reflexivity. Qed.
